@@ -149,7 +149,7 @@ def unquoted_strings(d):
         return ident.map(lambda s: (s, ("str", s)))
     extra = ["a.b", "N/A", "x-y", "foo:bar", "a_b_", "_a", "$x", "@home", "a^b",
              "path/to/file.img", "x.y.z", "a-b-c", "A.", "km/s", "a\\b", "`q`",
-             "é", "x?"]
+             "é", "x?", "*x", "a*b", "**x"]
     if d in PLUS_OK:
         extra += ["a+b", "x+", "C++"]
     if d == "default":
@@ -174,6 +174,10 @@ def quoted_strings(d):
             "pre-\r\n\r\n  post", "a - b", "trailing-", "x" * 90, "&", "+", "a\x0bb", "a\x0cb",
             "-\n", "END\n", "=", ","]
     pool = [s for s in pool if all(c in cs for c in s)]
+    # every lexeme of C17's curated list as the content of a quoted string
+    from props import c17
+    lexemes = sorted({s for s in c17.CURATED if s and all(c in cs for c in s)}
+                     - set(pool))
     dashy = st.lists(st.sampled_from(["pre-", "post-", "-", "2-", "alpha", "beta", "x-",
                                       "long-word-", "N/A", "end-", "a", "xxxxxxxxxxxx-",
                                       "--", "-x"]),
@@ -182,7 +186,8 @@ def quoted_strings(d):
                     min_size=22, max_size=22)
     dashy = st.tuples(dashy, seps).map(
         lambda t: "".join(w + s for w, s in zip(t[0], t[1])).rstrip(" \t"))
-    content = st.one_of(st.sampled_from(pool), st.text(alphabet=cs, max_size=15),
+    content = st.one_of(st.sampled_from(pool), st.sampled_from(lexemes),
+                        st.text(alphabet=cs, max_size=15),
                         st.text(alphabet="ab \n\t-#/*=;'\"", max_size=10), dashy)
 
     @st.composite
@@ -399,7 +404,7 @@ def param_names(d):
             st.tuples(ident, ident).map(lambda t: t[0] + ":" + t[1]),
             st.sampled_from(["a", "A", "k", "K", "Key", "KEY"])]
     if d not in ODL_FAMILY:
-        opts.append(st.sampled_from(["a.b", "x/y", "long-name", "$v", "k@1"]))
+        opts.append(st.sampled_from(["a.b", "x/y", "long-name", "$v", "k@1", "*x", "a*b"]))
     return st.one_of(*opts)
 
 
@@ -510,8 +515,8 @@ def separators(d, required, allow_hash=True):
                          + "*/")
     parts = [ws, ws, ccomment]
     if d in HASH_COMMENT and allow_hash:
-        hbody = st.text(alphabet="ab =;'\"(){}<>,*#", max_size=10).map(
-            lambda b: b.rstrip("-"))
+        hbody = st.one_of(st.text(alphabet="ab =;'\"(){}<>,*#-", max_size=10),
+                          st.sampled_from([" ---", "-", " x-", " a - b -"]))
         parts.append(st.tuples(ws, hbody).map(lambda t: t[0] + "#" + t[1] + "\n"))
 
     run = st.lists(st.one_of(*parts), min_size=1, max_size=3).map("".join)
@@ -548,7 +553,7 @@ _C_BODIES = ["", " c ", "x=1;", " END ", "'", '"', " ( { < ", " # ", "\n multi\n
              " GROUP = g ", "<m>", "/", "*", "**", " a/", "* x *", "//", " see http://x/"]
 _H_BODIES = ["", " c", "x=1;", " END", "'", '"', " ( { <", " #", " a * b", "= =",
              " GROUP = g", ";;", "<m>", " it's", ' say "hi', " a/*b", " */", " x /* y */",
-             " a//b"]
+             " a//b", " ----------", "-", " see x-", " - ", " a -\t"]
 
 
 def _sep(rng, d, required, mode):
